@@ -85,12 +85,14 @@ func asDiag(c *linter.Checker, warning linter.Warning) analysis.Diagnostic {
 // prepareGocritic initializes a new gocritic object,
 // but unlike newGocritic() it could use a cached version.
 func prepareGocritic() (*gocritic, error) {
-	if DisableCache {
-		return newGocritic()
-	}
-
 	globalGocriticMu.Lock()
 	defer globalGocriticMu.Unlock()
+
+	if DisableCache {
+		// newGocritic writes the flag values into the parameters
+		// of the registered checkers, which all passes share.
+		return newGocritic()
+	}
 
 	// Don't report init error ever again if it was already reported.
 	if globalInitErrorReported {
@@ -235,6 +237,12 @@ func filterCheckersList(infoList []*linter.CheckerInfo) []*linter.CheckerInfo {
 }
 
 func (critic *gocritic) createCheckers(ctx *linter.Context) ([]*linter.Checker, error) {
+	if DisableCache {
+		// The constructors read the checker parameters
+		// that newGocritic of another pass may be writing.
+		globalGocriticMu.Lock()
+		defer globalGocriticMu.Unlock()
+	}
 	checkers := make([]*linter.Checker, len(critic.infoList))
 	for i, info := range critic.infoList {
 		c, err := linter.NewChecker(ctx, info)
